@@ -37,6 +37,8 @@ WORKERS = int(os.environ.get("C02_WORKERS", "4"))
 MODELLED = ["addzero", "constfold", "cse", "cjump", "delunused", "las", "clean"]
 SINGLE = MODELLED + ["mem2reg", "tailcall"]
 LEVELS = ["O0", "O1", "O2", "Os"]
+# pass -> Lean-verified validator that every real output of the pass goes through (Model.OptCheck)
+VALIDATED = {"delunused": "align"}
 
 
 def pass_object(name):
@@ -62,8 +64,25 @@ def run_pipeline(tree, pname):
             for p in pname.split("+"):
                 pass_object(p).run(m)
     except Exception as e:  # noqa
-        return None, type(e).__name__
+        return None, (raising_pass(e.__traceback__) or pname, type(e).__name__)
     return irser.serialize(m), None
+
+
+SHORT = {"RemoveAddZeroPass": "addzero", "ConstantFolder": "constfold", "CommonSubexpressionEliminationPass": "cse",
+         "CJumpPass": "cjump", "DeleteUnusedInstructionsPass": "delunused", "LoadAfterStorePass": "las",
+         "CleanPass": "clean", "Mem2RegPromotor": "mem2reg", "TailCallOptimization": "tailcall"}
+
+
+def raising_pass(tb):
+    """short name of the pass object whose `run` is on the traceback (so that a pipeline failure is attributed
+    to the pass that raised, whatever the level)"""
+    from ppci.opt.transform import ModulePass
+    while tb is not None:
+        me = tb.tb_frame.f_locals.get("self")
+        if isinstance(me, ModulePass):
+            return SHORT.get(type(me).__name__, type(me).__name__)
+        tb = tb.tb_next
+    return None
 
 
 # ---- inputs ---------------------------------------------------------------------------------------------
@@ -282,11 +301,14 @@ def process(ctx, tag, text, only, fixed, pipelines):
     plan = {"tag": tag, "text": text, "cases": [(e.name, a) for e, a in cases], "nruns": len(runs), "variants": []}
     for p in pipelines:
         after, exc = run_pipeline(tree, p)
-        v = {"pipeline": p, "after": after, "exc": exc, "model_at": None, "after_at": None}
+        v = {"pipeline": p, "after": after, "exc": exc, "model_at": None, "after_at": None, "check_at": None}
         if p in MODELLED:
             v["model_at"] = len(lines)
             lines.append("load " + text)
             lines.append("pass " + p)
+        if after is not None and p in VALIDATED:
+            v["check_at"] = len(lines) + 3
+            lines += ["load " + text, "keep", "load " + after, "check " + VALIDATED[p]]
         if after is not None:
             v["after_at"] = len(lines)
             lines += ["load " + after] + runs
@@ -311,15 +333,17 @@ def evaluate(ctx, plan, replies):
         p = v["pipeline"]
         ctx.count("programs")
         case0 = {"module": text, "pipeline": p, "tag": tag}
+        exc = None
         if v["exc"] is not None:
+            who, exc = v["exc"]
             ctx.count(f"exception_{p}")
-            ctx.fail(f"{p}:exception:{v['exc']}", f"the pass raises {v['exc']} on a well-formed module", case0)
+            ctx.fail(f"{who}:exception:{exc}", f"{who} raises {exc} on a well-formed module (pipeline {p})", case0)
         if v["model_at"] is not None:
             mr = replies[v["model_at"] + 1]
             ctx.count("eval_model_vs_pass")
-            if v["exc"] is not None:
-                if mr != "err " + v["exc"]:
-                    ctx.disagree(f"{p}: exception", case0, "err " + v["exc"], mr[:200])
+            if exc is not None:
+                if mr != "err " + exc:
+                    ctx.disagree(f"{p}: exception", case0, "err " + exc, mr[:200])
             elif not mr.startswith("ok "):
                 ctx.disagree(f"{p}: model raises", case0, "ok", mr[:200])
             else:
@@ -328,6 +352,15 @@ def evaluate(ctx, plan, replies):
                 if cm != ci:
                     ctx.disagree(f"{p}: model output differs from the real pass (alpha-normal forms)", case0,
                                  _first_diff(ci, cm), _first_diff(cm, ci))
+        if v["check_at"] is not None:
+            cr = replies[v["check_at"]]
+            ctx.count("eval_validator")
+            if cr == "ok 1":
+                ctx.count(f"validated_{p}")
+            elif outside_validator_class(p, text, v["after"]):
+                ctx.count(f"validator_not_applicable_{p}")
+            else:
+                ctx.disagree(f"{p}: the Lean validator `{VALIDATED[p]}` rejects the real pass output", case0, "accept", cr)
         if v["after_at"] is None:
             continue
         at = v["after_at"]
@@ -350,6 +383,16 @@ def evaluate(ctx, plan, replies):
             ctx.fail(f"{p}:{cls}", f"behaviour of {fname}{tuple(args)} changes: before `{b[:160]}` after `{a[:160]}`",
                      dict(case0, entry=fname, args=[repr(x) for x in args]), before=b, after=a, after_module=v["after"])
     ctx.sample({"module": tag, "pipelines": len(plan["variants"]), "runs": n})
+
+
+def outside_validator_class(p, before, after):
+    """rewrites the validator of pass `p` does not claim to cover (stated in LEVEL_NOTE)"""
+    if p == "delunused":
+        # removal of an unused stack slot / literal changes the memory layout: not covered by `checkAlign`
+        kinds = lambda t: sorted(i[0] for f in T.funcs_of(T.parse(t)) for b in T.blocks_of(f) for i in b[2:]
+                                 if i[0] in ("alloc", "literal"))
+        return kinds(before) != kinds(after)
+    return False
 
 
 def _first_diff(a, b):
